@@ -278,6 +278,76 @@ func c50(c *Ctx) {
 		q2 := pathQuery{Fn: doneCl, AtEntry: true, Barrier: func(in ssa.Instruction) bool { return in == ssa.Instruction(fin) }, Target: isReturn}
 		c.MustPass("done-always-reports-finish", q2, fin)
 		c.Expect(sameValue(fin.Common().Args[0], started.Common().Args[0]) || sameCaptured(fin.Common().Args[0], started.Common().Args[0], doneStore), fin, doneCl, "same-locality", "CallFinished is reported for a different locality than CallStarted")
+		// with a load store present a started call is always reported: CallStarted may be skipped after a
+		// successful child pick only where the store is absent
+		pk := one(c, "child Pick", callsIn(f, Callee("balancer", "Picker.Pick")))
+		perr := ExtractOf(func(v ssa.Value) bool { return v == pk.Value() }, 1)
+		c.MustPass("successful-pick-is-reported-as-started", pathQuery{Fn: f, Starts: []ssa.Instruction{pk}, Barrier: func(in ssa.Instruction) bool { return in == ssa.Instruction(started) }, Target: func(in ssa.Instruction) bool {
+			r, ok := in.(*ssa.Return)
+			return ok && ConstNil(r.Results[1])
+		}, EdgeBlock: func(from, to *ssa.BasicBlock) bool {
+			fs := edgeFacts(from, to)
+			_, a := hasFact(fs, IsNil(FieldLoad(fLS)))
+			_, b := hasFact(fs, NotNil(perr))
+			return a || b
+		}}, pk)
+		// every drop (by category, by circuit breaking) is reported as a drop when a store is present
+		drops := callsIn(f, Callee(cimpl, "loadReporter.CallDropped"))
+		c.Expect(len(drops) == 2, nil, f, "two-drop-reports", "expected the category drop and the circuit-breaker drop to be reported")
+		isDropRep := func(in ssa.Instruction) bool {
+			for _, d := range drops {
+				if in == ssa.Instruction(d) {
+					return true
+				}
+			}
+			return false
+		}
+		for _, arm := range []struct {
+			l  string
+			fm FM
+		}{
+			{"category-drop", Truth(CallRes(Callee(cimpl, "dropper.drop"), 0), true)},
+			{"circuit-breaker-drop", NotNil(CallRes(Callee("internal/xds/xdsclient", "ClusterRequestsCounter.StartRequest"), 0))},
+		} {
+			st := edgeTargetsWhere(f, arm.fm)
+			if c.Expect(len(st) == 1, nil, f, arm.l+"-arm", "drop arm not found") {
+				c.MustPass(arm.l+"-is-reported", pathQuery{Fn: f, StartBlocks: st, Barrier: isDropRep, Target: isReturn,
+					EdgeBlock: func(from, to *ssa.BasicBlock) bool {
+						_, a := hasFact(edgeFacts(from, to), IsNil(FieldLoad(fLS)))
+						return a
+					}}, nil)
+			}
+		}
+		for _, d := range drops {
+			if ConstStr("")(d.Common().Args[0]) {
+				c.MustFact(d, "uncategorised-drop-is-the-circuit-breaker's", NotNil(CallRes(Callee("internal/xds/xdsclient", "ClusterRequestsCounter.StartRequest"), 0)))
+			} else {
+				c.MustFact(d, "category-drop-only-when-dropped", Truth(CallRes(Callee(cimpl, "dropper.drop"), 0), true))
+				c.ArgIs(d, 0, "reports-the-dropping-category", FieldLoad(c.field(cimpl, "dropper", "category")))
+			}
+		}
+		// the previous Done is chained
+		for _, st := range storesToField(f, fDone) {
+			cl := funcOfValue(st.Val)
+			if cl == nil {
+				continue
+			}
+			chained := false
+			for _, b := range cl.Blocks {
+				for _, in := range b.Instrs {
+					if call, ok := in.(*ssa.Call); ok && call.Call.StaticCallee() == nil && !call.Call.IsInvoke() {
+						if u, isU := call.Call.Value.(*ssa.UnOp); isU {
+							if _, isFV := u.X.(*ssa.FreeVar); isFV {
+								chained = true
+								fvX := u.X
+								c.MustFact(call, "previous-Done-called-only-if-set", NotNil(func(v ssa.Value) bool { l, ok := v.(*ssa.UnOp); return ok && l.X == fvX }))
+							}
+						}
+					}
+				}
+			}
+			c.Expect(chained, st, f, "previous-Done-chained", "an installed Done callback does not call the one it replaces")
+		}
 		// drops are reported as drops, not as started calls
 		for _, dr := range callsIn(f, Callee(cimpl, "loadReporter.CallDropped")) {
 			c.Expect(!reachableBlocks(dr.Block())[started.Block()], dr, f, "dropped-not-started", "a dropped RPC is also counted as started")
